@@ -217,7 +217,10 @@ class ExprMixin:
             return VBool(z3.Not(truthy(v)))
         if isinstance(node.op, ast.USub):
             if isinstance(v, VInt):
-                return VInt(-v.t)
+                r = VInt(-v.t)
+                if getattr(v, "is_inf", False):
+                    r = VInt(z3.IntVal(-(2 ** 62)))
+                return r
             if isinstance(v, VReal):
                 return VReal(-v.t)
             if isinstance(v, VBool):
@@ -284,6 +287,11 @@ class ExprMixin:
         return VBool(zand(*res))
 
     def compare(self, op, a, b, node, st):
+        if isinstance(op, (ast.Eq, ast.NotEq)) and isinstance(a, VRec) and isinstance(b, VRec):
+            c = self.resolve_user("__eq__", a.ty.rname)
+            if c is not None:
+                r = truthy(self.call_user(c, [a, b], {}, node, st, None))
+                return r if isinstance(op, ast.Eq) else z3.Not(r)
         if isinstance(op, ast.Eq):
             return eq(a, b)
         if isinstance(op, ast.NotEq):
@@ -394,6 +402,8 @@ class ExprMixin:
             return self.str_format(a, b, node, st)
         a = self.num(a, node, st)
         b = self.num(b, node, st)
+        if getattr(a, "is_inf", False) or getattr(b, "is_inf", False):
+            self.unsupported(node, "arithmetic on math.inf")
         if not (isinstance(a, (VInt, VReal)) and isinstance(b, (VInt, VReal))):
             self.unsupported(node, "binary operator on %s, %s" % (a.ty, b.ty))
         real = isinstance(a, VReal) or isinstance(b, VReal)
@@ -675,8 +685,11 @@ class ExprMixin:
         if isinstance(node.value, ast.Name):
             nm = node.value.id
             if nm == "math" and node.attr == "inf":
-                self.assumptions.add("math.inf modelled as an unconstrained integer (results must not observe it)")
-                return VInt(z3.Int(fresh_name("inf")))
+                self.assumptions.add("math.inf modelled as the integer 2**62: sound for storage and for comparisons with "
+                                     "quantities the contracts bound below 2**62; arithmetic on it is rejected")
+                v = VInt(z3.IntVal(2 ** 62))
+                v.is_inf = True
+                return v
             if nm in T.ENUMS and nm not in st.vars:
                 e = T.ENUMS[nm]
                 if node.attr in e.members:
@@ -841,9 +854,12 @@ class ExprMixin:
         return inner
 
     def ev_ListComp(self, node, st):
-        if len(node.generators) != 1 or node.generators[0].ifs:
-            self.unsupported(node, "list comprehension with filter / nesting")
+        if len(node.generators) != 1:
+            self.unsupported(node, "nested list comprehension")
         gen = node.generators[0]
+        it = gen.iter
+        if gen.ifs or (isinstance(it, ast.Call) and isinstance(it.func, ast.Name) and it.func.id == "filter"):
+            return self.filtered_comp(node, gen, st)
         i, rng, binder, bounds, _ = self.comp_domain(gen, st, node)
         if i is None:
             items = []
@@ -875,6 +891,45 @@ class ExprMixin:
         return VList(elt.ty, z3.simplify(n), z3.Lambda([j], body))
 
     ev_GeneratorExp = ev_ListComp
+
+    def filtered_comp(self, node, gen, st):
+        """[f(x) for x in L if P(x)]  /  [f(x) for x in filter(lambda x: P(x), L)]: the order-preserving subsequence,
+        axiomatised with a position function (source index -> result index) and its inverse."""
+        it = gen.iter
+        pred_fn = None
+        if isinstance(it, ast.Call) and isinstance(it.func, ast.Name) and it.func.id == "filter":
+            pred_fn = self.ev(it.args[0], st)
+            src = self.ev(it.args[1], st)
+        else:
+            src = self.ev(it, st)
+        if not isinstance(src, VList):
+            self.unsupported(node, "filtered comprehension over %s" % src.ty)
+        i = z3.Int(fresh_name("fi"))
+        s2 = st.copy()
+        self.bind_target(gen.target, src.get(i), s2)
+        s2.guard = s2.guard + [z3.And(0 <= i, i < src.n)]
+        conds = [self.ev_bool(c, s2) for c in gen.ifs]
+        if pred_fn is not None:
+            conds.append(truthy(pred_fn.fn([src.get(i)], s2, node)))
+        P = zand(*conds)
+        elt = self.ev(node.elt, s2)
+        res = fresh(TList(elt.ty), "filtered")
+        pos = z3.Function(fresh_name("fpos"), z3.IntSort(), z3.IntSort())
+        inv = z3.Function(fresh_name("fsrc"), z3.IntSort(), z3.IntSort())
+        j = z3.Int(fresh_name("fj"))
+        i2 = z3.Int(fresh_name("fi2"))
+        P2 = z3.substitute(P, (i, i2))
+        st.assume(res.n >= 0)
+        st.assume(res.n <= src.n)
+        st.assume(z3.ForAll([i], z3.Implies(z3.And(0 <= i, i < src.n, P),
+                                            z3.And(0 <= pos(i), pos(i) < res.n, z3.Select(res.a, pos(i)) == pack(elt), inv(pos(i)) == i))))
+        st.assume(z3.ForAll([j], z3.Implies(z3.And(0 <= j, j < res.n),
+                                            z3.And(0 <= inv(j), inv(j) < src.n, z3.substitute(P, (i, inv(j))), pos(inv(j)) == j,
+                                                   z3.Select(res.a, j) == z3.substitute(pack(elt), (i, inv(j)))))))
+        st.assume(z3.ForAll([i, i2], z3.Implies(z3.And(0 <= i, i < i2, i2 < src.n, P, P2), pos(i) < pos(i2))))
+        self.trusted_axioms.add("a filtered comprehension / filter() is the order-preserving subsequence of the elements "
+                                "satisfying the predicate (axiomatised with a position function)")
+        return res
 
     def ev_with_bound(self, elt, s2, i, k):
         """evaluate elt with the z3 bound variable i replaced by the constant k in every variable of the state"""
